@@ -67,6 +67,7 @@ theorem Func.value_congr (f : Func) (e e' : Env) (hx : ∀ v ∈ f.vars, e.x v =
     have : c.body.val e.x = c.body.val e'.x := Body.val_congr c.body _ _ hx
     simp only [Func.value, this]
   | pl pts a => simp only [Func.value, hx a (by simp [Func.vars])]
+  | pow a k => simp only [Func.value, hx a (by simp [Func.vars])]
 
 /-! ### the forward sweep -/
 
